@@ -756,6 +756,11 @@ pub fn compute_references(cfg: &SearchConfig, w: &Workload, refs: &References) -
                     if i >= w.programs.len() {
                         break;
                     }
+                    // a harness that cannot run its sessions at all fails fast instead of timing out
+                    // on every one of them
+                    if errors.lock().unwrap().len() >= 8 {
+                        break;
+                    }
                     match refs.compute(&cfg.exe, &scratch, &w.programs[i], false) {
                         Ok(RefResult::Ok(_)) => {}
                         Ok(RefResult::Disagree(pa, a, pb, b)) => {
